@@ -94,6 +94,24 @@ class HypCase(Case):
         return self._data.draw(st.integers(lo, hi))
 
 
+class UniformCase(Case):
+    """Every choice uniform and independent: a splitmix64 stream keyed by ONE integer that Hypothesis draws.  Hypothesis's own
+    generation of many small bounded integers is far from uniform over the product space (measured: some of 16 equally likely
+    configuration cells never appeared in 300 cases), which matters for the finite configuration grids the templates draw from."""
+
+    def __init__(self, seed):
+        super().__init__()
+        self._state = seed & 0xFFFFFFFFFFFFFFFF
+
+    def _draw(self, lo, hi):
+        self._state = (self._state + 0x9E3779B97F4A7C15) & 0xFFFFFFFFFFFFFFFF
+        z = self._state
+        z = ((z ^ (z >> 30)) * 0xBF58476D1CE4E5B9) & 0xFFFFFFFFFFFFFFFF
+        z = ((z ^ (z >> 27)) * 0x94D049BB133111EB) & 0xFFFFFFFFFFFFFFFF
+        z ^= z >> 31
+        return lo + z % (hi - lo + 1)
+
+
 class ReplayCase(Case):
     def __init__(self, choices):
         super().__init__()
